@@ -474,6 +474,10 @@ def run(pid: str) -> int:
     for f in found:
         chk.violation(f"Search.tla invariant {f['invariant']} violated in run {f['run']}", f)
     crosscheck_mirrors(chk)
+    if pid == "C12":
+        from . import p_proof  # noqa: PLC0415
+
+        p_proof.hourly_report(chk)
     if pid == "C05":
         from . import p_proof  # noqa: PLC0415
 
